@@ -85,6 +85,19 @@ def run_case(ctx, i, rng):
                                 style="mixed" if i % 3 == 1 else "simple")
         finally:
             sdn.namespace_manager.default = "DEFAULT"
+        if i % 6 == 4:
+            # very long names (around and beyond the 255-character identifier limit): the writer shortens the identifier,
+            # the name itself must come back unchanged
+            pool = [c for l in n.libraries for d_ in l.definitions for c in list(d_.children) + [x for x in d_.cables if len(x.wires) == 1 and x.is_scalar]]
+            pool += [d_ for l in n.libraries for d_ in l.definitions]
+            for k_, x_ in enumerate(rng.sample(pool, min(len(pool), 3))):
+                ln = rng.choice([254, 255, 256, 300])
+                base = "%s_L%d_" % (x_.name, k_)
+                try:
+                    x_.name = base + "y" * max(1, ln - len(base))
+                    ctx.count("very_long_names")
+                except ValueError:
+                    pass
         st = gen_ir.shape_stats(n)
         c0 = canon.canon_edif(n, with_identifiers=False)
         has_bus = any(N[1] > 1 for L in c0["libs"].values() for C in L["cells"].values() for N in C["nets"].values())
